@@ -139,12 +139,17 @@ Definition ref_ok (x : bytes) (c : case) : bool :=
     else
       match full_decode x with
       | None => false
-      | Some v => leqb rest (repeat 1 8 ++ ref_vec v)
+      | Some v =>
+        (* the located fields are those of the Coq reference; the Go-side equality flags
+           (computed by re-marshalling) are due only for canonical inputs *)
+        leqb (skipn 8 rest) (ref_vec v)
+        && (if canonical_object x then leqb (firstn 8 rest) (repeat 1 8) else true)
       end
   | [] => false
   end.
 
-Definition wf_of (base : bytes) (c : case) : bool := wf_object (input_of base c).
+Definition wf_of (base : bytes) (c : case) : bool :=
+  let x := input_of base c in wf_object x && canonical_object x.
 
 (* ---- head.go callers on the real tree --------------------------------------------- *)
 
@@ -152,7 +157,7 @@ Definition fs_vec (x : bytes) (c : case) : list (option N) :=
   let '(_, _, _, rf, bad, _) := c in
   let initial := firstn head_buf_len x in
   let unm := match rf with st :: _ => st | [] => 9 end in
-  let good := wf_object x && match bad with [] => true | _ => false end in
+  let good := wf_object x && canonical_object x && match bad with [] => true | _ => false end in
   let head_st :=
       if (length initial <? head_buf_len)%nat then unm
       else match extract_header_and_payload (pvalid_of x bad) (svalid_of x bad) initial with
